@@ -16,7 +16,7 @@ EXPLANATION = (
     '(accept() of the control connection, the first message of the spawned backend) are multiplexed with an object that '
     'becomes ready when the client / the child goes away. R3: every path that abandons a client (continue) closes its '
     'socket, except the explicit no-request (None header) branch. R4: the children/contexts registries are mutated only in '
-    'run (after a successful creation, or on delete) and by the constructor / signal clean-up. R5: every `mp.connection.wait` has a reason why multiprocessing.connection is imported at that point (explicit import, a Pipe end or the child\'s sentinel among the waited objects, or the work loop of a spawned child) - the accept thread of a stand-alone server waits on sockets before any Pipe or Process exists.')
+    'run (after a successful creation, or on delete) and by the constructor / signal clean-up. R5: every `mp.connection.wait` has a reason why multiprocessing.connection is imported at that point (explicit import, a Pipe end or the child\'s sentinel among the waited objects, or the work loop of a spawned child) - the accept thread of a stand-alone server waits on sockets before any Pipe or Process exists. R6: every call on the client\'s data socket in the server-side __setstate__ that can fail on a reset connection (getpeername, getsockname, ...) is made under a handler inside __setstate__ - the accept loop contains ConnectionClosedError only.')
 TECHNIQUE = 'tainted exception edges vs handler position on the CFG, multiplexed-wait recogniser, must-pass-through, who-may-write'
 
 
@@ -138,6 +138,25 @@ def run(ctx):
                       'bare-startup-recv', f'the accept thread does a bare recv() of the backend\'s runtime info ({why}): a backend that dies while starting blocks the server for good',
                       where=loc(ss, c))
     ctx.floor('blocking waits of the accept thread in __setstate__', n_block, 2)
+    # R6: every call on the client's data socket that can fail because the client has gone (OSError on a reset connection: getpeername,
+    # getsockname, setsockopt, shutdown ...) is made under a handler inside __setstate__ - the accept loop contains ConnectionClosedError only.
+    # send_msg / recv_msg map their transport errors themselves (C10.R3).
+    n_cli = 0
+    for n in gs.nodes:
+        if n.stmt is None or n.part != 'eval':
+            continue
+        for e in n.succ:
+            if e.kind != 'exc' or e.cause != 'e3' or e.call is None or e.exc == 'ConnectionClosedError':
+                continue
+            if receiver(e.call) != 'self._socket':
+                continue
+            n_cli += 1
+            contained = e.dst.kind == 'handler'      # what the handler may raise in turn is judged by R2 (`setstate-raises`)
+            ctx.check('R6', f'server-side __setstate__: a failure of `{short(e.call, 50)}` on the client\'s data socket is handled inside __setstate__', contained, ss.short,
+                      f'client-socket-error-escapes:{last_attr(e.call)}',
+                      f'`{short(e.call, 60)}` raises {e.exc} when the client has already reset the connection (e.g. it died right after sending its worker); nothing in __setstate__ catches it '
+                      'and it is not a ConnectionClosedError, so it leaves the accept loop: the server stops and takes the workers of every other client with it', where=loc(ss, e.call))
+    ctx.floor('fallible calls on the client data socket in __setstate__', n_cli, 2)
     # the failures raised by these guards must be the class the server contains
     raised = {ctx.an.raised_class(n.exc, ss) for n in walk_local(ss.node) if isinstance(n, ast.Raise) and n.exc is not None}
     ctx.check('R2', 'server-side __setstate__ reports an abandoned start-up as ConnectionClosedError (the class the accept loop contains)',
